@@ -154,7 +154,23 @@ def run_scenario(ctx, idx, scn, schedules, max_events, timeout):
                                 f"[{label}, {cores} cores, schedule {k}] {R['error'][:400]}", wit))
                     continue
                 d = first_diff(lr, norm(R["log"]))
-                if d:
+                tie = False
+                if d and isinstance(d[1], list) and isinstance(d[2], list) and d[1][0] == d[2][0] == "commit" \
+                        and d[1][2] == d[2][2] and d[1][2] is not None:
+                    # mechanism classifier: the two runs commit DIFFERENT events that carry bit-identical candidate times
+                    # (an exact tie between two handlers); which of them the scheduler returns first depends on the order
+                    # in which the candidates were pushed, i.e. on the arrival order in the multi-process mediator
+                    t = d[1][2]
+                    ncommits = sum(1 for e in lr[:d[0]] if e[0] == "commit")
+                    # candidates pushed in the single-process run BEFORE the divergent commit with exactly this time
+                    tied = {h for n, h, tt in ref.get("pushes", []) if tt == t and n <= ncommits}
+                    tie = len(tied) >= 2
+                if d and tie:
+                    res.append(("violation", "C20:tied-candidates-committed-in-arrival-order",
+                                f"[{label}, {cores} cores, schedule {k}] log entry {d[0]}: two handlers hold candidates with the "
+                                f"bit-identical time {d[1][2]}; multi-process commits {d[2][1]} first, single-process {d[1][1]}",
+                                dict(wit, index=d[0])))
+                elif d:
                     res.append(("violation", "C20:commit-log-differs-from-single-process",
                                 f"[{label}, {cores} cores, schedule {k}] log entry {d[0]}: multi-process {brief(d[2])}  vs  "
                                 f"single-process {brief(d[1])}", dict(wit, index=d[0])))
